@@ -311,6 +311,37 @@ func genGraph(r *Rng, kind string, n int) ([]edgeI, int) {
 				es = append(es, edgeI{a, b})
 			}
 		}
+	case "talltree", "tallintree":
+		// a rooted tree with many layers: a spine, and small bushes branching off anywhere along it (also deep down)
+		depth := 12 + r.Intn(30)
+		var t []edgeI
+		for i := 1; i < depth; i++ {
+			t = append(t, edgeI{i - 1, i})
+		}
+		n = depth
+		for b := 2 + r.Intn(5); b > 0; b-- {
+			at := r.Intn(depth - 1)
+			if r.Bool(60) {
+				at = depth/2 + r.Intn(depth-depth/2-1)
+			}
+			// a bush of 1-5 nodes below spine node `at`
+			first := n
+			for k := 1 + r.Intn(5); k > 0; k-- {
+				p := at
+				if n > first && r.Bool(60) {
+					p = first + r.Intn(n-first)
+				}
+				t = append(t, edgeI{p, n})
+				n++
+			}
+		}
+		for _, j := range r.Perm(len(t)) {
+			if kind == "talltree" {
+				es = append(es, t[j])
+			} else {
+				es = append(es, edgeI{t[j][1], t[j][0]})
+			}
+		}
 	case "deep":
 		// more than 64 layers: a long chain with two-layer gadgets hanging off deep nodes
 		depth := 66 + r.Intn(25)
